@@ -117,6 +117,10 @@ type Resolver struct {
 	Fn    *ssa.Function
 	cache map[ssa.Value]*Term
 	busy  map[ssa.Value]bool
+	// inlining of transparent helpers (functions outside the rule vocabulary): the value of a call is the term
+	// of what the helper returns, with its parameters replaced by the argument terms
+	inlineDepth int
+	subs        map[*ssa.Function]*Resolver
 }
 
 func NewResolver(p *prog.Program, mods *Mods, fn *ssa.Function) *Resolver {
@@ -308,6 +312,11 @@ func (r *Resolver) compute(v ssa.Value, d int) *Term {
 	case *ssa.Call:
 		return r.call(x, d)
 	case *ssa.Extract:
+		if c, ok := x.Tuple.(*ssa.Call); ok {
+			if t := r.inlineResult(c, x.Index, d); t != nil {
+				return t
+			}
+		}
 		return &Term{Op: "extract", Name: fmt.Sprint(x.Index), Args: []*Term{r.of(x.Tuple, d+1)}}
 	case *ssa.Next:
 		return &Term{Op: "elem", Args: []*Term{r.of(x.Iter, d+1)}}
@@ -466,8 +475,138 @@ func sameAddr(a, b ssa.Value) bool {
 	return false
 }
 
+// inlineResult: term of result idx of a call to a transparent helper, or nil.
+func (r *Resolver) inlineResult(c *ssa.Call, idx int, d int) *Term {
+	if r.inlineDepth >= 3 || d > maxDepth-4 {
+		return nil
+	}
+	h := c.Call.StaticCallee()
+	if h == nil || c.Call.IsInvoke() || !r.P.Transparent(h) || h == r.Fn {
+		return nil
+	}
+	if h.Signature.Results().Len() <= idx {
+		return nil
+	}
+	if r.subs == nil {
+		r.subs = map[*ssa.Function]*Resolver{}
+	}
+	sub := r.subs[h]
+	if sub == nil {
+		sub = NewResolver(r.P, r.Mods, h)
+		sub.inlineDepth = r.inlineDepth + 1
+		r.subs[h] = sub
+	}
+	var rets []*Term
+	for _, b := range h.Blocks {
+		ret, ok := b.Instrs[len(b.Instrs)-1].(*ssa.Return)
+		if !ok || len(ret.Results) <= idx {
+			continue
+		}
+		rets = append(rets, sub.Of(ret.Results[idx]))
+	}
+	if len(rets) == 0 {
+		return nil
+	}
+	args := make([]*Term, len(c.Call.Args))
+	for i, a := range c.Call.Args {
+		args[i] = r.of(a, d+1)
+	}
+	vals := c.Call.Args
+	for _, t := range rets {
+		if len(t.String()) > 400 {
+			return nil // too large to be a useful expression: keep the call by name
+		}
+	}
+	var out *Term
+	if len(rets) == 1 {
+		out = r.substParamTerms(rets[0], args, vals, 0, d)
+	} else {
+		ph := &Term{Op: "phi"}
+		for _, t := range rets {
+			ph.Args = append(ph.Args, r.substParamTerms(t, args, vals, 0, d))
+		}
+		out = ph
+	}
+	if len(out.String()) > 1500 {
+		return nil
+	}
+	return out
+}
+
+// fieldOfLocal: the term of field `name` of a struct-valued local variable (as a direct field read in this
+// function would produce it), used when a by-value struct argument's field is read inside an inlined helper.
+func (r *Resolver) fieldOfLocal(al *ssa.Alloc, name string, d int) *Term {
+	st := structOf(al.Type())
+	if st == nil {
+		return nil
+	}
+	idx := -1
+	for i := 0; i < st.NumFields(); i++ {
+		if fieldName(al.Type(), i) == name {
+			idx = i
+		}
+	}
+	if idx < 0 {
+		return nil
+	}
+	var fa *ssa.FieldAddr
+	for _, ref := range *al.Referrers() {
+		if x, ok := ref.(*ssa.FieldAddr); ok && x.Field == idx {
+			fa = x
+		}
+	}
+	if fa == nil {
+		// never addressed field-wise: only whole-value stores can define it
+		c := r.allocContent(al, -1, d+1)
+		return &Term{Op: "field", Name: name, Args: []*Term{c}, Unstable: c.Unstable}
+	}
+	return r.allocField(al, fa, []int{idx}, d+1)
+}
+
+// substParamTerms replaces parameter terms #i by args[i] (fresh term nodes; cached strings are not reused).
+func (r *Resolver) substParamTerms(t *Term, args []*Term, vals []ssa.Value, depth int, d int) *Term {
+	if t == nil || depth > 40 {
+		return t
+	}
+	if t.Op == "field" && len(t.Args) == 1 && t.Args[0] != nil && t.Args[0].Op == "param" {
+		var i int
+		if _, err := fmt.Sscanf(t.Args[0].Name, "#%d", &i); err == nil && i < len(vals) {
+			if u, ok := vals[i].(*ssa.UnOp); ok {
+				if al, ok := u.X.(*ssa.Alloc); ok {
+					if ft := r.fieldOfLocal(al, t.Name, d); ft != nil {
+						return ft
+					}
+				}
+			}
+		}
+	}
+	if t.Op == "param" {
+		var i int
+		if _, err := fmt.Sscanf(t.Name, "#%d", &i); err == nil && i < len(args) && args[i] != nil {
+			return args[i]
+		}
+		return t
+	}
+	if len(t.Args) == 0 {
+		return t
+	}
+	nt := &Term{Op: t.Op, Name: t.Name, Unstable: t.Unstable, V: t.V}
+	nt.Args = make([]*Term, len(t.Args))
+	for i, a := range t.Args {
+		nt.Args[i] = r.substParamTerms(a, args, vals, depth+1, d)
+	}
+	return nt
+}
+
 func (r *Resolver) call(c *ssa.Call, d int) *Term {
 	cc := &c.Call
+	if c.Type() != nil {
+		if _, isTuple := c.Type().(*types.Tuple); !isTuple {
+			if t := r.inlineResult(c, 0, d); t != nil {
+				return t
+			}
+		}
+	}
 	name, _ := r.CalleeName(cc)
 	var args []*Term
 	if cc.IsInvoke() {
